@@ -284,6 +284,8 @@ func checkC14(p *Prog, res *Result, tier string) {
 	res.rule("C14-R3", "the last-observed field is written only from Get(electionKey) in the observer called by the lock's Get, or from the bytes just created after a nil Commit", 2)
 	res.rule("C14-R4", "Create / Update return nil only after Commit returned nil", 2)
 	res.rule("C14-R5", "adapters evaluate conditions atomically with the write (C11-R1/R2)", 15)
+	res.rule("C14-R7", "the record bytes handed to the engine (and remembered as last observed) are not a window into a reusable buffer", 2)
+	res.rule("C14-R6", "the lock's Get / Create / Update are driven by the elector only: repository code calls none of them (a Get from elsewhere replaces the bytes the pending round's compare-and-swap expects)", 1)
 	res.Stats["roles"] = map[string]string{"lock": e.lockT.Obj().Name(), "key": e.keyF.Name(), "lastObserved": e.lastF.Name(), "timestamp": e.tsoF.Name(), "observer": funcName(e.observer)}
 
 	isKey := func(v ssa.Value) bool {
@@ -335,6 +337,49 @@ func checkC14(p *Prog, res *Result, tier string) {
 			res.bad("C14-R2", construct, p.pos(s.op.Call.Pos()), "the compare-and-swap on the lock record does not expect the bytes this candidate last observed: it can overwrite a record it never saw")
 		}
 	}
+	// R6: who may call the lock
+	{
+		lockIface := p.namedType("k8s.io/client-go/tools/leaderelection/resourcelock", "Interface")
+		isLockRecv := func(t types.Type) bool {
+			if pt, ok := t.(*types.Pointer); ok {
+				t = pt.Elem()
+			}
+			return types.Identical(t, lockIface) || types.Identical(t, e.lockT)
+		}
+		seen, n := 0, 0
+		for _, f := range p.AllFuncs {
+			if f.Synthetic != "" || f.Pkg == nil || !strings.HasPrefix(f.Pkg.Pkg.Path(), modPath) {
+				continue
+			}
+			for _, c := range callsIn(f) {
+				name := ""
+				if c.Common().IsInvoke() {
+					if isLockRecv(c.Common().Value.Type()) {
+						name = c.Common().Method.Name()
+					}
+				} else if sc := c.Common().StaticCallee(); sc != nil && sc.Signature.Recv() != nil && isLockRecv(sc.Signature.Recv().Type()) {
+					name = sc.Name()
+				}
+				if name == "" {
+					continue
+				}
+				seen++
+				if name != "Get" && name != "Create" && name != "Update" {
+					continue
+				}
+				n++
+				res.bad("C14-R6", fmt.Sprintf("%s calls the lock's %s #%d", funcName(f), name, n), p.pos(c.Pos()),
+					"the lock's "+name+" is called from repository code, outside the elector's acquire/renew round: it replaces the last-observed bytes, so that the compare-and-swap of a round that is under way expects a record that round never examined and can overwrite an accepted record")
+			}
+		}
+		if seen == 0 {
+			res.und("C14-R6", "calls on the election lock", "-", "no call on the lock interface found in repository code (the role no longer resolves)")
+		} else if n == 0 {
+			res.ok("C14-R6", "calls on the election lock from repository code", "-", fmt.Sprintf("%d call site(s) on the lock, none of Get / Create / Update", seen))
+		}
+	}
+	// R7: the record bytes become the engine's
+	checkValueOwnership(p, r, res, "C14-R7", func(f *ssa.Function) bool { return f.Pkg == p.ssaPkg("pkg/backend/election") })
 	// R3
 	p.buildCallersLite()
 	for i, w := range e.fieldWrites(p, e.lastF) {
@@ -711,19 +756,31 @@ func checkLeaderStart(p *Prog, r *Roles, res *Result, rule string) {
 		}
 		// the flag may also be raised by a helper of the election type (setLeader(true)): the leader flag is the field
 		// that the IsLeader implementation reads; a call of a helper that writes it is a flag write at the call site
+		isLeaderFound := false
 		if len(flagWrites) == 0 {
 			flagFields := map[*types.Var]bool{}
-			for _, impl := range p.implsOf(p.ifaceMethod("pkg/server/service/leader", "LeaderElection", "IsLeader")) {
-				if impl.Pkg != cb.Pkg {
-					continue
+			var reads func(f *ssa.Function, d int)
+			reads = func(f *ssa.Function, d int) {
+				if f == nil || f.Blocks == nil || d > 2 || f.Pkg != cb.Pkg {
+					return
 				}
-				for _, b := range impl.Blocks {
+				for _, b := range f.Blocks {
 					for _, ins := range b.Instrs {
 						if fa, ok := ins.(*ssa.FieldAddr); ok {
 							flagFields[fieldOf(fa)] = true
 						}
+						if c, ok := ins.(*ssa.Call); ok {
+							reads(c.Common().StaticCallee(), d+1)
+						}
 					}
 				}
+			}
+			for _, impl := range p.implsOf(p.ifaceMethod("pkg/server/service/leader", "LeaderElection", "IsLeader")) {
+				if impl.Pkg != cb.Pkg {
+					continue
+				}
+				isLeaderFound = true
+				reads(impl, 0)
 			}
 			var writes func(f *ssa.Function, d int) bool
 			writes = func(f *ssa.Function, d int) bool {
@@ -761,6 +818,8 @@ func checkLeaderStart(p *Prog, r *Roles, res *Result, rule string) {
 		switch {
 		case setCur == nil:
 			res.bad(rule, construct, p.pos(cb.Pos()), "the leader-start callback never seeds the revision counters: the new leader hands out revisions from its stale counter")
+		case len(flagWrites) == 0 && isLeaderFound:
+			res.bad(rule, construct, p.pos(cb.Pos()), "nothing that IsLeader() reads is written by the leader-start callback: leadership is reported from some other source (the lock record, say) and can become true before SetCurrentRevision has seeded the counters - a write admitted in that window is stamped with a revision below what the store already contains")
 		case len(flagWrites) == 0:
 			res.und(rule, construct, p.pos(cb.Pos()), "leader flag write not found in the callback")
 		default:
